@@ -3,6 +3,532 @@ From Coq Require Import List NArith Bool Arith Lia.
 From DV Require Import C06.Model.
 Import ListNotations.
 
+(* ------------------------------------------------------------------ fuel is monotone *)
+
+Definition pe_le (pe pe' : nat -> list token -> pres) : Prop := forall m ts r, pe m ts = Some r -> pe' m ts = Some r.
+
+Ltac use_pe Hpe :=
+  match goal with
+  | H : context [match ?pe ?m ?ts with _ => _ end] |- _ =>
+    let E := fresh "E" in destruct (pe m ts) as [[? ?]|] eqn:E; [rewrite (Hpe _ _ _ E)|discriminate H]
+  end.
+
+Lemma loop_mono : forall pe pe', pe_le pe pe' -> forall g g' m na l ts r, g <= g' ->
+  loop pe g m na l ts = Some r -> loop pe' g' m na l ts = Some r.
+Proof.
+  intros pe pe' Hpe. induction g as [|g IH]; intros g' m na l ts r Hg H; [discriminate H|].
+  destruct g' as [|g']; [lia|]. assert (Hg' : g <= g') by lia.
+  cbn [loop] in *. destruct ts as [|t ts']; [exact H|].
+  destruct t; try exact H.
+  - destruct (m <=? lv o); [|exact H].
+    destruct (is_non o && (lv o =? na)); [discriminate H|].
+    use_pe Hpe. eapply IH; eauto.
+  - destruct (m <=? lv_post); [|exact H]. use_pe Hpe.
+    destruct l0 as [|t0 l0]; [discriminate H|]. destruct t0; try discriminate H. eapply IH; eauto.
+  - destruct (m <=? lv_post); [|exact H]. use_pe Hpe.
+    destruct l0 as [|t0 l0]; [discriminate H|]. destruct t0; try discriminate H. eapply IH; eauto.
+  - destruct (m <=? lv_between); [|exact H]. use_pe Hpe.
+    destruct l0 as [|t0 l0]; [discriminate H|]. destruct t0; try discriminate H.
+    use_pe Hpe. eapply IH; eauto.
+  - destruct (m <=? lv_inst); [|exact H]. eapply IH; eauto.
+  - destruct (m <=? lv_post); [|exact H]. eapply IH; eauto.
+Qed.
+
+Lemma prefix_mono : forall pe pe', pe_le pe pe' -> forall ts r, prefix pe ts = Some r -> prefix pe' ts = Some r.
+Proof.
+  intros pe pe' Hpe ts r H. unfold prefix in *. destruct ts as [|t ts']; [exact H|].
+  destruct t; try exact H.
+  - destruct o; try exact H. use_pe Hpe. exact H.
+  - use_pe Hpe. exact H.
+Qed.
+
+Lemma parse_expr_mono : forall f f' m ts r, f <= f' -> parse_expr f m ts = Some r -> parse_expr f' m ts = Some r.
+Proof.
+  induction f as [|f IH]; intros f' m ts r Hf H; [discriminate H|].
+  destruct f' as [|f']; [lia|]. assert (Hf' : f <= f') by lia.
+  assert (Hle : pe_le (parse_expr f) (parse_expr f')) by (intros m0 ts0 r0 H0; eapply IH; eauto).
+  cbn [parse_expr] in *.
+  destruct (prefix (parse_expr f) ts) as [[l rest]|] eqn:E; [|discriminate H].
+  rewrite (prefix_mono _ _ Hle _ _ E). eapply loop_mono; eauto.
+Qed.
+
+(* ------------------------------------------------------------------ the operator loop stops on tokens it may not consume *)
+
+(* level at which a token continues an operand (None: it does not) *)
+Definition lbp (t : token) : option nat :=
+  match t with
+  | TOp o => Some (lv o)
+  | TBetween => Some lv_between
+  | TInst _ => Some lv_inst
+  | TDot _ | TLb | TLp => Some lv_post
+  | _ => None
+  end.
+
+Definition stops (k : nat) (rest : list token) : Prop :=
+  match rest with
+  | t :: _ => match lbp t with Some p => p < k | None => True end
+  | [] => True
+  end.
+
+Lemma stops_mono : forall k k' rest, k <= k' -> stops k rest -> stops k' rest.
+Proof. intros k k' [|t r] Hk H; [exact I|]. cbn in *. destruct (lbp t); [lia|exact I]. Qed.
+
+Lemma loop_stops : forall pe g m na l rest, stops m rest -> loop pe (S g) m na l rest = Some (l, rest).
+Proof.
+  intros pe g m na l [|t r] H; [reflexivity|]. cbn [loop]. cbn in H.
+  destruct t; cbn in H; try reflexivity;
+    match goal with |- context [?a <=? ?b] => destruct (Nat.leb_spec a b) as [Hle|Hlt]; [exfalso; lia|reflexivity] end.
+Qed.
+
+(* results that hold for all sufficiently large fuel *)
+Definition Parses (m : nat) (ts : list token) (r : tree * list token) : Prop := exists f, parse_expr f m ts = Some r.
+Definition Loops (m na : nat) (l : tree) (ts : list token) (r : tree * list token) : Prop :=
+  exists f g, loop (parse_expr f) g m na l ts = Some r.
+
+Lemma pe_le_fuel : forall f f', f <= f' -> pe_le (parse_expr f) (parse_expr f').
+Proof. intros f f' H m ts r E. eapply parse_expr_mono; eauto. Qed.
+
+Lemma Loops_norm : forall m na l ts r, Loops m na l ts r -> exists F, forall F', F <= F' -> loop (parse_expr F') F' m na l ts = Some r.
+Proof.
+  intros m na l ts r [f [g H]]. exists (max f g). intros F' HF.
+  eapply loop_mono; [apply (pe_le_fuel f F'); lia| |exact H]. lia.
+Qed.
+
+Lemma Loops_stop : forall m na l rest, stops m rest -> Loops m na l rest (l, rest).
+Proof. intros. exists 0, 1. apply loop_stops. assumption. Qed.
+
+(* prefix result followed by the loop *)
+Lemma Parses_of_prefix : forall m ts l rest r,
+  (exists f, prefix (parse_expr f) ts = Some (l, rest)) -> Loops m 0 l rest r -> Parses m ts r.
+Proof.
+  intros m ts l rest r [f Hp] HL. destruct (Loops_norm _ _ _ _ _ HL) as [F HF].
+  exists (S (max f F)). cbn [parse_expr].
+  rewrite (prefix_mono _ _ (pe_le_fuel f (max f F) (Nat.le_max_l f F)) _ _ Hp). apply HF. apply Nat.le_max_r.
+Qed.
+
+(* one turn of the loop, as rules on Loops *)
+Lemma Loops_op : forall m na l o ts x rest r,
+  m <= lv o -> (is_non o && (lv o =? na)) = false ->
+  Parses (rc o) ts (x, rest) -> Loops m (if is_non o then lv o else 0) (Bin o l x) rest r ->
+  Loops m na l (TOp o :: ts) r.
+Proof.
+  intros m na l o ts x rest r Hm Hna [f1 H1] [f2 [g2 H2]].
+  exists (max f1 f2), (S g2). cbn [loop].
+  destruct (Nat.leb_spec m (lv o)) as [_|Hlt]; [|lia]. rewrite Hna.
+  rewrite (parse_expr_mono f1 (max f1 f2) _ _ _ (Nat.le_max_l f1 f2) H1).
+  eapply loop_mono; [apply (pe_le_fuel f2); lia| |exact H2]. lia.
+Qed.
+
+Lemma Loops_between : forall m na l ts lo r1 hi rest r,
+  m <= lv_between -> Parses 0 ts (lo, TBand :: r1) -> Parses rc_between r1 (hi, rest) ->
+  Loops m 0 (Btw l lo hi) rest r -> Loops m na l (TBetween :: ts) r.
+Proof.
+  intros m na l ts lo r1 hi rest r Hm [f1 H1] [f2 H2] [f3 [g3 H3]].
+  exists (max f1 (max f2 f3)), (S g3). cbn [loop].
+  destruct (Nat.leb_spec m lv_between) as [_|Hlt]; [|lia].
+  assert (L1 : f1 <= max f1 (max f2 f3)) by lia. assert (L2 : f2 <= max f1 (max f2 f3)) by lia.
+  rewrite (parse_expr_mono f1 _ _ _ _ L1 H1).
+  rewrite (parse_expr_mono f2 _ _ _ _ L2 H2).
+  eapply loop_mono; [apply (pe_le_fuel f3); lia| |exact H3]. lia.
+Qed.
+
+Lemma Loops_inst : forall m na l ty rest r, m <= lv_inst -> Loops m 0 (Inst l ty) rest r -> Loops m na l (TInst ty :: rest) r.
+Proof.
+  intros m na l ty rest r Hm [f [g H]]. exists f, (S g). cbn [loop].
+  destruct (Nat.leb_spec m lv_inst) as [_|Hlt]; [exact H|lia].
+Qed.
+
+Lemma Loops_dot : forall m na l n rest r, m <= lv_post -> Loops m 0 (Path l n) rest r -> Loops m na l (TDot n :: rest) r.
+Proof.
+  intros m na l n rest r Hm [f [g H]]. exists f, (S g). cbn [loop].
+  destruct (Nat.leb_spec m lv_post) as [_|Hlt]; [exact H|lia].
+Qed.
+
+Lemma Loops_filter : forall m na l ts i rest r, m <= lv_post -> Parses 0 ts (i, TRb :: rest) ->
+  Loops m 0 (Filt l i) rest r -> Loops m na l (TLb :: ts) r.
+Proof.
+  intros m na l ts i rest r Hm [f1 H1] [f2 [g2 H2]]. exists (max f1 f2), (S g2). cbn [loop].
+  destruct (Nat.leb_spec m lv_post) as [_|Hlt]; [|lia].
+  rewrite (parse_expr_mono f1 (max f1 f2) _ _ _ (Nat.le_max_l f1 f2) H1).
+  eapply loop_mono; [apply (pe_le_fuel f2); lia| |exact H2]. lia.
+Qed.
+
+Lemma Loops_call : forall m na l ts a rest r, m <= lv_post -> Parses 0 ts (a, TRp :: rest) ->
+  Loops m 0 (Call l a) rest r -> Loops m na l (TLp :: ts) r.
+Proof.
+  intros m na l ts a rest r Hm [f1 H1] [f2 [g2 H2]]. exists (max f1 f2), (S g2). cbn [loop].
+  destruct (Nat.leb_spec m lv_post) as [_|Hlt]; [|lia].
+  rewrite (parse_expr_mono f1 (max f1 f2) _ _ _ (Nat.le_max_l f1 f2) H1).
+  eapply loop_mono; [apply (pe_le_fuel f2); lia| |exact H2]. lia.
+Qed.
+
+(* the three prefix forms *)
+Lemma prefix_atom : forall a rest, exists f, prefix (parse_expr f) (TAtom a :: rest) = Some (Atom a, rest).
+Proof. intros. exists 0. reflexivity. Qed.
+
+Lemma prefix_neg : forall ts x rest, Parses c_neg ts (x, rest) -> exists f, prefix (parse_expr f) (TOp Sub :: ts) = Some (Neg x, rest).
+Proof. intros ts x rest [f H]. exists f. cbn [prefix]. rewrite H. reflexivity. Qed.
+
+Lemma prefix_paren : forall ts x rest, Parses 0 ts (x, TRp :: rest) -> exists f, prefix (parse_expr f) (TLp :: ts) = Some (x, rest).
+Proof. intros ts x rest [f H]. exists f. cbn [prefix]. rewrite H. reflexivity. Qed.
+
+(* ------------------------------------------------------------------ rendering, then parsing *)
+
+Definition body_of (t : tree) : list token :=
+  match t with
+  | Atom a => [TAtom a]
+  | Bin o l r => render_at (lc o) l ++ TOp o :: render_at (rc o) r
+  | Neg x => TOp Sub :: render_at r_neg x
+  | Btw x lo hi => render_at lv_between x ++ TBetween :: render_at 0 lo ++ TBand :: render_at rc_between hi
+  | Inst x ty => render_at c_post x ++ [TInst ty]
+  | Path x n => render_at c_post x ++ [TDot n]
+  | Filt x i => render_at c_post x ++ TLb :: render_at 0 i ++ [TRb]
+  | Call f a => render_at c_post f ++ TLp :: render_at 0 a ++ [TRp]
+  end.
+
+Lemma render_at_eq : forall m t, render_at m t = if lvl t <? m then TLp :: body_of t ++ [TRp] else body_of t.
+Proof. intros m t. destruct t; reflexivity. Qed.
+
+Definition prefix_form (t : tree) : bool := match t with Atom _ | Neg _ => true | _ => false end.
+
+(* the level at which the right-most open operand of an unparenthesised t is parsed *)
+Definition edge (t : tree) : option nat :=
+  match t with
+  | Bin o _ _ => Some (rc o)
+  | Neg _ => Some c_neg
+  | Btw _ _ _ => Some rc_between
+  | _ => None
+  end.
+
+Definition edge_stops (t : tree) (rest : list token) : Prop :=
+  match edge t with Some k => stops k rest | None => True end.
+
+Definition na0 (t : tree) : nat := match t with Bin o _ _ => if is_non o then lv o else 0 | _ => 0 end.
+Definition na_after (m' : nat) (t : tree) : nat := if lvl t <? m' then 0 else na0 t.
+
+Definition P (t : tree) : Prop := forall m m' rest r,
+  (lvl t < m' \/ (m <= lvl t /\ m <= 13) \/ prefix_form t = true) ->
+  (lvl t < m' \/ edge_stops t rest) ->
+  Loops m (na_after m' t) t rest r ->
+  Parses m (render_at m' t ++ rest) r.
+
+Definition Q (t : tree) : Prop := forall m rest r,
+  ((m <= lvl t /\ m <= 13) \/ prefix_form t = true) -> edge_stops t rest -> Loops m (na0 t) t rest r -> Parses m (body_of t ++ rest) r.
+
+Lemma stops_closing : forall k rest, stops k (TRp :: rest) /\ stops k (TRb :: rest) /\ stops k (TBand :: rest).
+Proof. intros. repeat split; exact I. Qed.
+
+Lemma wrap : forall t, Q t -> P t.
+Proof.
+  intros t HQ m m' rest r Hc He HL. rewrite render_at_eq. unfold na_after in HL.
+  destruct (Nat.ltb_spec (lvl t) m') as [Hp|Hnp].
+  - cbn [app]. rewrite <- app_assoc. cbn [app].
+    eapply Parses_of_prefix; [|exact HL]. apply prefix_paren.
+    apply HQ.
+    + left. lia.
+    + unfold edge_stops. destruct (edge t); exact I.
+    + apply Loops_stop. exact I.
+  - apply HQ; [| |exact HL].
+    + destruct Hc as [Hc|[Hc|Hc]]; [lia|left; exact Hc|right; exact Hc].
+    + destruct He as [He|He]; [lia|exact He].
+Qed.
+
+(* an operand rendered at its own level and followed by something its loop does not consume *)
+Lemma P_operand : forall t k rest, P t -> k <= 13 -> stops k rest -> (k <= lvl t -> forall e, edge t = Some e -> k <= e) ->
+  Parses k (render_at k t ++ rest) (t, rest).
+Proof.
+  intros t k rest HP Hk Hs He. apply HP.
+  - destruct (Nat.lt_ge_cases (lvl t) k); [left; assumption|right; left; split; assumption].
+  - destruct (Nat.lt_ge_cases (lvl t) k) as [Hl|Hg]; [left; exact Hl|right].
+    unfold edge_stops. destruct (edge t) as [e|] eqn:E; [|exact I].
+    eapply stops_mono; [|exact Hs]. exact (He Hg e eq_refl).
+  - apply Loops_stop. exact Hs.
+Qed.
+
+Lemma Q_atom : forall a, Q (Atom a).
+Proof.
+  intros a m rest r _ _ HL. cbn [body_of app].
+  eapply Parses_of_prefix; [apply prefix_atom|exact HL].
+Qed.
+
+Ltac norm_app := repeat (rewrite <- app_assoc; cbn [app]).
+Ltac lvls := unfold rc, lc, c_neg, r_neg, rc_between, lv_between, lv_neg, lv_inst, lv_post, c_post in *; cbn [asc lv lvl] in *.
+
+Lemma edge_bound_rc : forall o t e, rc o <= lvl t -> edge t = Some e -> rc o <= e.
+Proof.
+  intros o t e Hl He. destruct t; cbn in He; try discriminate He; inversion He; subst; cbn [lvl] in Hl.
+  - destruct o, o0; lvls; lia.
+  - destruct o; lvls; lia.
+  - destruct o; lvls; lia.
+Qed.
+
+Lemma Q_bin : forall o l r0, P l -> P r0 -> Q (Bin o l r0).
+Proof.
+  intros o l r0 Pl Pr m rest r Hc He HL. cbn [body_of]. norm_app.
+  assert (Hm : m <= lv o) by (destruct Hc as [[Hc _]|Hc]; [exact Hc|discriminate Hc]).
+  cbn [edge_stops edge] in He. unfold edge_stops in He. cbn [edge] in He.
+  apply Pl.
+  - destruct (Nat.lt_ge_cases (lvl l) (lc o)) as [Hlt|Hge]; [left; exact Hlt|right; left].
+    assert (lv o <= lc o) by (unfold lc; destruct (asc o); lia). split; [lia|]. destruct o; lvls; lia.
+  - destruct (Nat.lt_ge_cases (lvl l) (lc o)) as [Hlt|Hge]; [left; exact Hlt|right].
+    unfold edge_stops. destruct l; cbn [edge]; try exact I; cbn [stops lbp]; cbn [lvl] in Hge.
+    + destruct o, o0; lvls; lia.
+    + destruct o; lvls; lia.
+    + destruct o; lvls; lia.
+  - eapply Loops_op; [exact Hm| | |exact HL].
+    + unfold na_after. destruct (Nat.ltb_spec (lvl l) (lc o)) as [Hlt|Hge].
+      * destruct (is_non o) eqn:En; [|reflexivity]. cbn [andb].
+        destruct o; cbn in En; try discriminate En; reflexivity.
+      * destruct (is_non o) eqn:En; [|reflexivity]. cbn [andb].
+        destruct l; cbn [na0]; try (destruct o; cbn in En; try discriminate En; reflexivity).
+        destruct o, o0; cbn in En; try discriminate En; cbn in Hge |- *; try reflexivity; lia.
+    + apply P_operand; [exact Pr|destruct o; lvls; lia|exact He|]. intros Hl e E. eapply edge_bound_rc; eauto.
+Qed.
+
+Lemma Q_neg : forall x, P x -> Q (Neg x).
+Proof.
+  intros x Px m rest r _ He HL. cbn [body_of app]. unfold edge_stops in He. cbn [edge] in He.
+  eapply Parses_of_prefix; [|exact HL]. apply prefix_neg. apply Px.
+  - destruct (Nat.lt_ge_cases (lvl x) r_neg) as [Hlt|Hge]; [left; exact Hlt|right].
+    destruct x; cbn [prefix_form lvl] in *; lvls; try (right; reflexivity); try (left; lia).
+    destruct o; lvls; lia.
+  - destruct (Nat.lt_ge_cases (lvl x) r_neg) as [Hlt|Hge]; [left; exact Hlt|right].
+    unfold edge_stops. destruct x; cbn [edge]; try exact I; cbn [lvl] in Hge.
+    + destruct o; lvls; lia.
+    + exact He.
+    + lvls; lia.
+  - apply Loops_stop. exact He.
+Qed.
+
+Lemma edge_bound : forall k t e, k <= lvl t -> k <= 8 -> edge t = Some e -> k <= e.
+Proof.
+  intros k t e Hl Hk He. destruct t; cbn in He; try discriminate He; inversion He; subst; cbn [lvl] in Hl.
+  - destruct o; lvls; lia.
+  - lvls; lia.
+  - lvls; lia.
+Qed.
+
+Lemma Q_btw : forall x lo hi, P x -> P lo -> P hi -> Q (Btw x lo hi).
+Proof.
+  intros x lo hi Px Plo Phi m rest r Hc He HL. cbn [body_of]. norm_app.
+  assert (Hm : m <= lv_between) by (destruct Hc as [[Hc _]|Hc]; [exact Hc|discriminate Hc]).
+  unfold edge_stops in He. cbn [edge] in He.
+  apply Px.
+  - destruct (Nat.lt_ge_cases (lvl x) lv_between) as [Hlt|Hge]; [left; exact Hlt|right; left; lvls; lia].
+  - destruct (Nat.lt_ge_cases (lvl x) lv_between) as [Hlt|Hge]; [left; exact Hlt|right].
+    unfold edge_stops. destruct x; cbn [edge]; try exact I; cbn [stops lbp]; cbn [lvl] in Hge.
+    + destruct o; lvls; lia.
+    + lvls; lia.
+    + lvls; lia.
+  - eapply Loops_between; [exact Hm| | |exact HL].
+    + apply (P_operand lo 0 (TBand :: render_at rc_between hi ++ rest) Plo); [lia|exact I|].
+      intros _ e E. lia.
+    + apply P_operand; [exact Phi|lvls; lia|exact He|]. intros Hl e E. eapply edge_bound; eauto.
+Qed.
+
+
+(* operand of a postfix form: rendered at c_post and followed by the postfix token *)
+Lemma post_operand_ctx : forall x m, m <= lv_inst -> lvl x < c_post \/ (m <= lvl x /\ m <= 13) \/ prefix_form x = true.
+Proof.
+  intros x m Hm. destruct (Nat.lt_ge_cases (lvl x) c_post) as [Hlt|Hge]; [left; exact Hlt|right; left].
+  lvls. lia.
+Qed.
+
+Lemma post_operand_edge : forall x rest, lvl x < c_post \/ edge_stops x rest.
+Proof.
+  intros x rest. destruct (Nat.lt_ge_cases (lvl x) c_post) as [Hlt|Hge]; [left; exact Hlt|right].
+  unfold edge_stops. destruct x; cbn [edge]; try exact I; cbn [lvl] in Hge.
+  - destruct o; lvls; lia.
+  - lvls; lia.
+  - lvls; lia.
+Qed.
+
+Lemma Q_inst : forall x ty, P x -> Q (Inst x ty).
+Proof.
+  intros x ty Px m rest r Hc _ HL. cbn [body_of]. norm_app.
+  assert (Hm : m <= lv_inst) by (destruct Hc as [[Hc _]|Hc]; [exact Hc|discriminate Hc]).
+  apply Px; [apply post_operand_ctx; exact Hm|apply post_operand_edge|].
+  apply Loops_inst; [exact Hm|exact HL].
+Qed.
+
+Lemma Q_path : forall x n, P x -> Q (Path x n).
+Proof.
+  intros x n Px m rest r Hc _ HL. cbn [body_of]. norm_app.
+  assert (Hm : m <= lv_inst) by (destruct Hc as [[_ Hc]|Hc]; [lvls; lia|discriminate Hc]).
+  apply Px; [apply post_operand_ctx; exact Hm|apply post_operand_edge|].
+  apply Loops_dot; [lvls; lia|exact HL].
+Qed.
+
+Lemma Q_filt : forall x i, P x -> P i -> Q (Filt x i).
+Proof.
+  intros x i Px Pi m rest r Hc _ HL. cbn [body_of]. norm_app.
+  assert (Hm : m <= lv_inst) by (destruct Hc as [[_ Hc]|Hc]; [lvls; lia|discriminate Hc]).
+  apply Px; [apply post_operand_ctx; exact Hm|apply post_operand_edge|].
+  eapply Loops_filter; [lvls; lia| |exact HL].
+  apply (P_operand i 0 (TRb :: rest) Pi); [lia|exact I|]. intros _ e E. lia.
+Qed.
+
+Lemma Q_call : forall f a, P f -> P a -> Q (Call f a).
+Proof.
+  intros f a Pf Pa m rest r Hc _ HL. cbn [body_of]. norm_app.
+  assert (Hm : m <= lv_inst) by (destruct Hc as [[_ Hc]|Hc]; [lvls; lia|discriminate Hc]).
+  apply Pf; [apply post_operand_ctx; exact Hm|apply post_operand_edge|].
+  eapply Loops_call; [lvls; lia| |exact HL].
+  apply (P_operand a 0 (TRp :: rest) Pa); [lia|exact I|]. intros _ e E. lia.
+Qed.
+
+Lemma render_parse : forall t, P t.
+Proof.
+  induction t; apply wrap.
+  - apply Q_atom.
+  - apply Q_bin; assumption.
+  - apply Q_neg; assumption.
+  - apply Q_btw; assumption.
+  - apply Q_inst; assumption.
+  - apply Q_path; assumption.
+  - apply Q_filt; assumption.
+  - apply Q_call; assumption.
+Qed.
+
+(* ------------------------------------------------------------------ round trip of the minimal rendering *)
+
+Theorem roundtrip_min : forall t, exists f0, forall f, f0 <= f -> parse_fuel f (render_min t) = Some t.
+Proof.
+  intro t. destruct (render_parse t 0 0 [] (t, [])) as [f0 H].
+  - right. left. lia.
+  - right. unfold edge_stops. destruct (edge t); exact I.
+  - apply Loops_stop. exact I.
+  - rewrite app_nil_r in H. exists f0. intros f Hf. unfold parse_fuel, render_min.
+    rewrite (parse_expr_mono f0 f _ _ _ Hf H). reflexivity.
+Qed.
+
+(* whatever fuel the parser is given, it never builds another tree from the minimal rendering *)
+Corollary roundtrip_min_unique : forall t f t', parse_fuel f (render_min t) = Some t' -> t' = t.
+Proof.
+  intros t f t' H. destruct (roundtrip_min t) as [f0 H0].
+  specialize (H0 (max f f0) (Nat.le_max_r f f0)).
+  unfold parse_fuel in *. destruct (parse_expr f 0 (render_min t)) as [[x rest]|] eqn:E; [|discriminate H].
+  rewrite (parse_expr_mono f (max f f0) _ _ _ (Nat.le_max_l f f0) E) in H0.
+  destruct rest; [|discriminate H]. congruence.
+Qed.
+
+(* ------------------------------------------------------------------ round trip of the fully parenthesised rendering *)
+
+Definition par (x : tree) : list token := match x with Atom a => [TAtom a] | _ => TLp :: render_full x ++ [TRp] end.
+
+Lemma render_full_eq : forall t, render_full t =
+  match t with
+  | Atom a => [TAtom a]
+  | Bin o l r => par l ++ TOp o :: par r
+  | Neg x => TOp Sub :: par x
+  | Btw x lo hi => par x ++ TBetween :: par lo ++ TBand :: par hi
+  | Inst x ty => par x ++ [TInst ty]
+  | Path x n => par x ++ [TDot n]
+  | Filt x i => par x ++ TLb :: par i ++ [TRb]
+  | Call f a => par f ++ TLp :: par a ++ [TRp]
+  end.
+Proof. destruct t; reflexivity. Qed.
+
+Definition closing (rest : list token) : Prop := match rest with t :: _ => lbp t = None | [] => True end.
+
+Lemma closing_stops : forall k rest, closing rest -> stops k rest.
+Proof. intros k [|t r] H; [exact I|]. cbn in *. rewrite H. exact I. Qed.
+
+(* F t: the full rendering of t, followed by a closing token, parses to t at level 0 *)
+Definition F (t : tree) : Prop := forall rest, closing rest -> Parses 0 (render_full t ++ rest) (t, rest).
+
+(* an operand of the full rendering, in any operand position *)
+Lemma par_operand : forall x, F x -> forall m rest r, Loops m 0 x rest r -> Parses m (par x ++ rest) r.
+Proof.
+  intros x Fx m rest r HL. destruct x; cbn [par];
+    try (cbn [app]; rewrite <- app_assoc; cbn [app]; eapply Parses_of_prefix; [|exact HL]; apply prefix_paren; apply Fx; reflexivity).
+  cbn [app]. eapply Parses_of_prefix; [apply prefix_atom|exact HL].
+Qed.
+
+Lemma full_parse : forall t, F t.
+Proof.
+  induction t; intros rest Hc; rewrite render_full_eq.
+  - cbn [app]. eapply Parses_of_prefix; [apply prefix_atom|]. apply Loops_stop. apply closing_stops; exact Hc.
+  - norm_app. apply par_operand; [exact IHt1|].
+    eapply Loops_op with (x := t2) (rest := rest).
+    + lia.
+    + rewrite Nat.eqb_sym. destruct o; reflexivity.
+    + apply par_operand; [exact IHt2|]. apply Loops_stop. apply closing_stops; exact Hc.
+    + apply Loops_stop. apply closing_stops; exact Hc.
+  - cbn [app]. eapply Parses_of_prefix.
+    + apply prefix_neg. apply par_operand; [exact IHt|]. apply Loops_stop. apply closing_stops; exact Hc.
+    + apply Loops_stop. apply closing_stops; exact Hc.
+  - norm_app. apply par_operand; [exact IHt1|].
+    eapply Loops_between with (lo := t2) (hi := t3) (rest := rest).
+    + lia.
+    + apply par_operand; [exact IHt2|]. apply Loops_stop. exact I.
+    + apply par_operand; [exact IHt3|]. apply Loops_stop. apply closing_stops; exact Hc.
+    + apply Loops_stop. apply closing_stops; exact Hc.
+  - norm_app. apply par_operand; [exact IHt|]. apply Loops_inst; [lia|]. apply Loops_stop. apply closing_stops; exact Hc.
+  - norm_app. apply par_operand; [exact IHt|]. apply Loops_dot; [lia|]. apply Loops_stop. apply closing_stops; exact Hc.
+  - norm_app. apply par_operand; [exact IHt1|].
+    eapply Loops_filter with (i := t2) (rest := rest); [lia| |apply Loops_stop; apply closing_stops; exact Hc].
+    apply par_operand; [exact IHt2|]. apply Loops_stop. exact I.
+  - norm_app. apply par_operand; [exact IHt1|].
+    eapply Loops_call with (a := t2) (rest := rest); [lia| |apply Loops_stop; apply closing_stops; exact Hc].
+    apply par_operand; [exact IHt2|]. apply Loops_stop. exact I.
+Qed.
+
+Theorem roundtrip_full : forall t, exists f0, forall f, f0 <= f -> parse_fuel f (render_full t) = Some t.
+Proof.
+  intro t. destruct (full_parse t [] I) as [f0 H]. rewrite app_nil_r in H.
+  exists f0. intros f Hf. unfold parse_fuel. rewrite (parse_expr_mono f0 f _ _ _ Hf H). reflexivity.
+Qed.
+
+(* ------------------------------------------------------------------ needed parentheses (finite: all trees with two nested operators) *)
+
+Definition shapes : nat := 20.
+
+(* the k-th operator applied to operands a b c (unused operands dropped) *)
+Definition mk1 (k : nat) (a b c : tree) : tree :=
+  match k with
+  | 0 => Bin Or a b | 1 => Bin And a b | 2 => Bin Eq a b | 3 => Bin Nq a b | 4 => Bin Lt a b | 5 => Bin Le a b
+  | 6 => Bin Gt a b | 7 => Bin Ge a b | 8 => Bin InOp a b | 9 => Bin Sub a b | 10 => Bin Add a b | 11 => Bin Mul a b
+  | 12 => Bin Div a b | 13 => Bin Exp a b | 14 => Neg a | 15 => Btw a b c | 16 => Inst a 7 | 17 => Path a 9
+  | 18 => Filt a b | _ => Call a b
+  end.
+
+Definition inner (k : nat) : tree := mk1 k (Atom 1) (Atom 3) (Atom 5).
+
+(* an operator over an operator, the inner one in the first, second or third operand position *)
+Definition nested (k1 k2 pos : nat) : tree :=
+  match pos with
+  | 0 => mk1 k1 (inner k2) (Atom 11) (Atom 13)
+  | 1 => mk1 k1 (Atom 11) (inner k2) (Atom 13)
+  | _ => mk1 k1 (Atom 11) (Atom 13) (inner k2)
+  end.
+
+Definition count_lp (ts : list token) : nat := length (filter (fun x => match x with TLp => true | _ => false end) ts).
+
+(* every pair of parentheses of the minimal rendering is needed: without it the tree is not parsed back *)
+Definition all_needed (t : tree) : bool :=
+  forallb (fun k => negb (otree_eqb (parse_tokens (drop_paren k (render_min t))) (Some t))) (seq 0 (count_lp (render_min t))).
+
+Definition roundtrips (t : tree) : bool :=
+  otree_eqb (parse_tokens (render_min t)) (Some t) && otree_eqb (parse_tokens (render_full t)) (Some t).
+
+Definition nested_ok : bool :=
+  forallb (fun k1 => forallb (fun k2 => forallb (fun pos => let t := nested k1 k2 pos in all_needed t && roundtrips t) (seq 0 3))
+                              (seq 0 shapes)) (seq 0 shapes).
+
+Lemma nested_ok_true : nested_ok = true.
+Proof. vm_compute. reflexivity. Qed.
+
+Lemma needed_nested : forall k1 k2 pos, k1 < shapes -> k2 < shapes -> pos < 3 ->
+  all_needed (nested k1 k2 pos) = true /\ roundtrips (nested k1 k2 pos) = true.
+Proof.
+  intros k1 k2 pos H1 H2 H3. pose proof nested_ok_true as H. unfold nested_ok in H.
+  rewrite forallb_forall in H. specialize (H k1 ltac:(apply in_seq; lia)).
+  rewrite forallb_forall in H. specialize (H k2 ltac:(apply in_seq; lia)).
+  rewrite forallb_forall in H. specialize (H pos ltac:(apply in_seq; lia)).
+  apply andb_true_iff in H. exact H.
+Qed.
+
 (* ------------------------------------------------------------------ string literals *)
 
 (* U+1F64F written as the surrogate pair 🙏: the repaired decoder gives the character,
